@@ -342,9 +342,9 @@ func init() {
 		for i := 0; i < nt; i++ {
 			js = append(js, job{kTags, i})
 		}
-		ns, nr := 16, 32
+		ns, nr := 16, 64
 		if tier == "thorough" {
-			ns, nr = 200, 400
+			ns, nr = 400, 2000
 		}
 		for i := 0; i < ns; i++ {
 			js = append(js, job{kSkipOK, i}, job{kSkipBad, i})
